@@ -10,7 +10,7 @@ import (
 func init() {
 	register(&Rule{
 		ID:    "C03.errors",
-		Props: []string{"C03", "C08", "C05", "C04", "C06", "C07", "C01", "C02"},
+		Props: []string{"C03", "C08", "C05", "C04", "C06", "C07", "C01", "C02", "C17"},
 		Doc:   "error discipline: no error returned by a repository function (Validate, validateRing, the parser/lexer routines, constructors, set operations…) or by encoding/json is discarded — the error component of every such call is extracted and used (tested, returned or wrapped). The one reviewed idiom: RangeSearch/PrioritySearch whose callback can only return nil or rtree.Stop (then the search cannot fail)",
 		Floor: 150,
 		Run:   runC03Errors,
